@@ -406,6 +406,19 @@ class ReuseTOML(GlobalLicensing):
         new_dict["source"] = source
 
         annotation_dicts = values.get("annotations", [])
+        if not isinstance(annotation_dicts, list) or not all(
+            isinstance(annotation, dict) for annotation in annotation_dicts
+        ):
+            raise GlobalLicensingParseTypeError(
+                _(
+                    "'annotations' must be a list of tables (got {value} that"
+                    " is a {value_class})."
+                ).format(
+                    value=repr(annotation_dicts),
+                    value_class=repr(annotation_dicts.__class__),
+                ),
+                source=source,
+            )
         try:
             annotations = [
                 AnnotationsItem.from_dict(annotation)
